@@ -337,6 +337,7 @@ func RunScenario(t *testing.T, rec *Recorder, sc *Scenario) {
 		}
 		rec.Emit("fs", F{"run": i + 1, "files": snapshotFS(name)})
 	}
+	r.resample(r.lastCtxs, "after")
 	rec.Emit("scen.end", F{"id": sc.ID})
 }
 
